@@ -106,6 +106,13 @@ func (w *world) apply(r *rep.Report, o op) bool {
 				w.m.Rem(o.Id)
 				w.m.Rem(ref.PropId(o.Id, "disabled"))
 			}
+		case "reload":
+			// the location is rebuilt from its storage (restart, cache expiry): cascades work as before
+			var l2 *core.Location
+			l2, err = drv.NewLoc("G", w.kind, w.store)
+			if err == nil {
+				w.loc = l2
+			}
 		case "expire":
 			// the item was written with ttl 1 at least 2 s ago: observing it deletes it
 			_, gerr := w.loc.GetFact(ctx, o.Id)
@@ -298,6 +305,12 @@ func main() {
 				continue
 			}
 			w.observe(r, false)
+			if gi%3 == 1 {
+				if !w.apply(r, op{Op: "reload"}) {
+					continue
+				}
+				w.observe(r, false)
+			}
 			for _, o := range dels {
 				before := len(w.m.Items)
 				if !w.apply(r, o) {
@@ -315,6 +328,8 @@ func main() {
 	type pend struct {
 		w    *world
 		root string
+		// lateReload: the item expires while the location is not loaded; it is loaded afterwards
+		lateReload bool
 	}
 	var pending []pend
 	for gi := 0; gi < nExp; gi++ {
@@ -333,8 +348,11 @@ func main() {
 					break
 				}
 			}
+			if ok && gi%4 == 1 {
+				ok = w.apply(r, op{Op: "reload"})
+			}
 			if ok && build[rootIdx].Op == "addFact" {
-				pending = append(pending, pend{w, build[rootIdx].Id})
+				pending = append(pending, pend{w, build[rootIdx].Id, gi%4 == 3})
 			}
 		}
 	}
@@ -346,6 +364,9 @@ func main() {
 			before := len(p.w.m.Items)
 			mu.Lock()
 			defer mu.Unlock()
+			if p.lateReload && !p.w.apply(r, op{Op: "reload"}) {
+				return
+			}
 			if p.w.apply(r, op{Op: "expire", Id: p.root}) {
 				r.Count("expiry_cascades", 1)
 				p.w.observe(r, before-len(p.w.m.Items) >= 2)
